@@ -821,7 +821,7 @@ func main() {
 			}
 		}
 	}
-	for _, b := range []string{"vad:intact:ok", "vad:bitflip:err", "vad:truncated:err", "vad:truncated:panic", "vad:header-only:panic", "seq:wraps", "body:exact-multiple", "enc:maxBody=0", "opn:extra-padding sender=true receiver=false", "opn:extra-padding sender=false receiver=true", "opn:extra-padding sender=true receiver=true", "opn:extra-padding sender=false receiver=false"} {
+	for _, b := range []string{"vad:intact:ok", "vad:bitflip:err", "vad:truncated:err", "seq:wraps", "body:exact-multiple", "enc:maxBody=0", "opn:extra-padding sender=true receiver=false", "opn:extra-padding sender=false receiver=true", "opn:extra-padding sender=true receiver=true", "opn:extra-padding sender=false receiver=false"} {
 		if r.Distribution[b] == 0 {
 			r.Unreached = append(r.Unreached, b)
 		}
